@@ -40,6 +40,8 @@ def _ev(model, t):
         return False
     if z3.is_rational_value(v):
         return {'$frac': [v.numerator_as_long(), v.denominator_as_long()]}
+    if z3.is_bv_value(v):
+        return v.as_signed_long()
     raise ValueError(f'cannot evaluate {t} -> {v}')
 
 
@@ -68,6 +70,9 @@ class Concretizer:
         if k in ('key', 'map', 'set', 'kseq'):   # containers
             from . import containers
             return containers.concretize_entry(self, typ, name)
+        alt = getattr(self.P, 'entry_exprs', {}).get(name)
+        if alt is not None:
+            return _ev(self.model, alt)
         if k == 'int':
             return _ev(self.model, z3.Int(name))
         if k == 'bool':
